@@ -301,7 +301,14 @@ func TestC14Records(t *testing.T) {
 			lc := rapid.SampledFrom([]int{0, 0, 1, 2, 3}).Draw(t, "leafcells")
 			tab.Tree = fmtb.TreeOpts{LeafCells: lc, Fanout: rapid.SampledFrom([]int{0, 2, 3}).Draw(t, "fanout")}
 			wr.Tree = tab.Tree
-			return recSpec{Img: bt.Image{PageSize: u, Layout: genLayout(t), Tables: []bt.Table{tab, wr}}}
+			img := bt.Image{PageSize: u, Layout: genLayout(t), Tables: []bt.Table{tab, wr}}
+			if rapid.IntRange(0, 4).Draw(t, "stalesize") == 0 {
+				// the in-header size is out of date and marked so (a writer older
+				// than SQLite 3.7.0 appended to the file): spilled payloads lie
+				// beyond the page count the header gives
+				img.Header.StaleSize = rapid.IntRange(1, 999).Draw(t, "stalesizepm")
+			}
+			return recSpec{Img: img}
 		},
 		Run: func(r *vt.Run, t vt.TB, s recSpec) {
 			built, err := bt.Build(&s.Img)
@@ -341,13 +348,14 @@ func TestC14Records(t *testing.T) {
 			}
 			r.Case(s, overflow || highbit || multivar,
 				fmt.Sprintf("rec:ps=%d", s.Img.PageSize), fmt.Sprintf("rec:overflow=%v", overflow), fmt.Sprintf("rec:widehdr=%v", widehdr),
-				fmt.Sprintf("rec:padded-varints=%v", padded), fmt.Sprintf("rec:depth=%d", built.Tables["t"].Shape.Depth), fmt.Sprintf("rec:idxdepth=%d", built.Tables["w"].IShape.Depth))
+				fmt.Sprintf("rec:padded-varints=%v", padded), fmt.Sprintf("rec:depth=%d", built.Tables["t"].Shape.Depth), fmt.Sprintf("rec:idxdepth=%d", built.Tables["w"].IShape.Depth),
+				fmt.Sprintf("rec:in-header-size-stale=%v", s.Img.Header.StaleSize > 0))
 			if problem, sig := compare(built); problem != "" {
 				report(r, t, s, built, problem, sig)
 				return
 			}
 			// sampled cross validation of the builder itself
-			if vt.Sampled(s, 8) {
+			if vt.Sampled(s, 8) || (s.Img.Header.StaleSize > 0 && vt.Sampled(s, 2)) {
 				diff, err := bt.SQLiteAgrees(env.O, env.Dir, built)
 				if err != nil {
 					r.Harness(t, "cross validation: %v", err)
